@@ -23,6 +23,7 @@ TRUSTED_BASE = [
     "axioms: none (Print Assumptions under every property theorem: Closed under the global context)",
     "hand-written Gallina model of the Go code (coq/Model/*.v), tied to /repo by this run's differential correspondence and by the regenerated Generated/*.v",
     "translator tools/gen_tables (go/ast, syntax only)",
+    "translator tools/gen_ssa (golang.org/x/tools v0.29.0 go/packages + go/ssa): value-flow edge rules per SSA instruction, control dependence (post-dominators), source / barrier / output-function classification are implemented there and are trusted to over-approximate explicit data flow (field- and index-insensitive, flow- and context-insensitive, dynamic calls resolved by signature; table look-ups keyed by data and error values reported by code outside the analysed packages are not tracked)",
     "extraction: ExtrOcamlBasic only (Extract Inductive bool/option/unit/list/prod/sumbool/sumor to OCaml built-ins; no Extract Constant), OCaml driver coq/Extract/runner/run.ml, ocamlfind ocamlopt; a slice of every run is re-evaluated by vm_compute inside Coq",
     "Go toolchain selected by /repo/go.mod, the harness /verif/harness (build tag verif hooks in /repo/verif_hooks.go)",
     "modelled, not verified: Go's crypto/sha1|sha256|sha512|hmac|subtle, encoding/base32, strings, time (each transcribed and differentially checked)",
@@ -84,6 +85,21 @@ def build_all(log):
         st['translator_ok'] = False
         st['notes'].append('translator gen_tables failed: ' + out.strip()[-500:])
     log.write('--- gen_tables\n' + out)
+    # SSA fact bases (C09 and the structural parts of C11-C13): regenerated when the tree changed
+    fp = repo_fingerprint()
+    stamp = os.path.join(WORK, 'ssa.stamp')
+    have = open(stamp).read() if os.path.exists(stamp) else ''
+    if have != fp or not os.path.exists(os.path.join(COQ, 'Generated', 'SsaNative.v')):
+        if not os.path.exists(os.path.join(BIN, 'gen_ssa')):
+            sh(['go', 'build', '-o', os.path.join(BIN, 'gen_ssa'), '.'], cwd=os.path.join(ROOT, 'tools/gen_ssa'), env=GOENV, timeout=900)
+        rc, out = sh(['sh', os.path.join(ROOT, 'tools/gen_ssa/run.sh')], env=dict(os.environ, VERIF_REPO=REPO), timeout=900)
+        log.write('--- gen_ssa\n' + out)
+        if rc:
+            st['translator_ok'] = False
+            st['notes'].append('translator gen_ssa failed: ' + out.strip()[-800:])
+        else:
+            with open(stamp, 'w') as f:
+                f.write(fp)
     # the executable model first (does not depend on any proof)
     rc, out = sh(['make', '-j%d' % NCPU, 'Extract/Extract.vo'], cwd=COQ, timeout=1800)
     log.write('--- make Extract\n' + out[-4000:])
@@ -430,6 +446,7 @@ PROPS = {
     'C06': {'streams': [('c06', 700, 20000)]},
     'C07': {'streams': [('c07', 3000, 200000)]},
     'C08': {'streams': [('c08', 300, 10000)]},
+    'C09': {'streams': []},
     'C10': {'streams': [('c10', 1500, 40000)]},
     'C18': {'streams': [('c18', 1200, 40000)]},
     'C19': {'streams': [('c19', 600, 20000)]},
